@@ -168,10 +168,31 @@ func c11Pair[V univers.Version[V], VR univers.VersionRange[V]](e univers.Ecosyst
 	vv.Assume(ea == nil)
 	vb, eb := e.NewVersion(b)
 	vv.Assume(eb == nil)
+	vv.Reached()
 	vv.Assume(rpmValid(a))
 	vv.Assume(rpmValid(b))
 	// a missing release is compared only with a missing release (RPM compares the release of
 	// two packages; what an absent one means is tool-specific)
 	vv.Assume(rpmSameShape(a, b))
+	vv.Assume(!vv.Known("KF-C11-rpm-not-rpmvercmp", orb(c11Outside(a), c11Outside(b))))
 	vv.Assert(sign(va.Compare(vb)) == rpmCompare(a, b), "C11: order differs from rpmvercmp")
+}
+
+// c11Outside: the input uses a feature of rpmvercmp that go-univers' pairwise scanner does not
+// implement faithfully: letters, '^', the separators '_' and '+', repeated or trailing
+// separators (inputs only).
+func c11Outside(s string) bool {
+	for i := 0; i < len(s); i++ {
+		c := s[i]
+		if isAlpha(c) || c == '^' || c == '_' || c == '+' {
+			return true
+		}
+		if c == '~' && (i+1 == len(s) || s[i+1] == '~' || s[i+1] == '.' || s[i+1] == '-') {
+			return true
+		}
+		if c == '.' && (i+1 == len(s) || s[i+1] == '.' || s[i+1] == '-' || s[i+1] == '~' || i == 0) {
+			return true
+		}
+	}
+	return false
 }
